@@ -227,8 +227,16 @@ pub(crate) fn lehmer_step(x: &mut [Word], y: &mut [Word], a: Word, b: Word, c: W
 #[inline]
 pub fn memory_requirement_up_to(lhs_len: usize, rhs_len: usize) -> Layout {
     // Required memory:
-    // - temporary space for the division in the euclidean step
-    div::memory_requirement_exact(lhs_len, rhs_len)
+    // - temporary space for the division in the euclidean step.
+    //
+    // The operands shrink during the algorithm, so the requirement of the division for the
+    // initial lengths is not an upper bound: a later step can divide (x_len, y_len) words with
+    // x_len <= lhs_len, y_len <= rhs_len in a shape that needs the divide and conquer algorithm,
+    // which multiplies by factors of at most y_len / 2 words.
+    memory::max_layout(
+        div::memory_requirement_exact(lhs_len, rhs_len),
+        mul::memory_requirement_up_to(lhs_len, rhs_len / 2),
+    )
 }
 
 pub(crate) fn gcd_in_place(
